@@ -580,6 +580,175 @@ def search_direction(ctx):
         raise AnalysisError("stack searches vanished: %s" % sorted(missing))
 
 
+# ---------------------------------------------------------------------------- C01.9 tree construction dispatcher
+def dispatcher(ctx):
+    """The condition in mainLoop that chooses between the current insertion mode and the foreign-content rules is decided
+    for every combination of (stack empty, namespace of the current node, MathML text integration point, HTML integration
+    point, annotation-xml, token kind, token name class) and compared with the standard's "tree construction dispatcher"."""
+    r = ctx.r
+    ce = ctx.ce
+    f = ctx.repo.func(PARSER_REL, "HTMLParser.mainLoop")
+    env0 = ce.local_env(f.node, f.module)
+    tt = ce.const("constants.py", "tokenTypes")
+    ns_map = ce.const("constants.py", "namespaces")
+    conds = [n for n in ast.walk(f.node) if isinstance(n, ast.If) and "isMathMLTextIntegrationPoint" in norm(n.test)]
+    if len(conds) != 1:
+        raise AnalysisError("mainLoop: dispatcher condition not found")
+    cond = conds[0]
+    then_ok = [norm(x) for x in cond.body] == ["phase = self.phase"]
+    else_ok = [norm(x) for x in cond.orelse] == ["phase = self.phases['inForeignContent']"]
+    r.check("C01.9", then_ok and else_ok, "dispatcher-arms", "%s:%d" % (PARSER_REL, cond.lineno),
+            "the dispatcher's arms no longer select the current insertion mode / the foreign-content rules")
+    interp = MiniInterp(ce, f.module)
+    kinds = ["Characters", "SpaceCharacters", "StartTag", "EndTag", "Comment", "Doctype"]
+    for empty in (True, False):
+        for ns in ("html", "mathml", "svg"):
+            for mtip in (True, False):
+                for hip in (True, False):
+                    for annot in (True, False):
+                        for kind in kinds:
+                            for name in ("mglyph", "malignmark", "svg", FRESH):
+                                if kind not in ("StartTag", "EndTag") and name != FRESH:
+                                    continue
+                                # consistency of the abstraction
+                                if ns == "html" and (mtip or hip or annot):
+                                    continue
+                                if mtip and ns != "mathml" or annot and ns != "mathml" or (mtip and annot):
+                                    continue
+                                if empty and (ns != "html" or mtip or hip or annot):
+                                    continue
+
+                                def hook(node, local, empty=empty, ns=ns, mtip=mtip, hip=hip, annot=annot):
+                                    t = norm(node)
+                                    if t == "len(self.tree.openElements)":
+                                        return 0 if empty else 3
+                                    if t == "self.tree.defaultNamespace":
+                                        return ns_map["html"]
+                                    if t == "currentNodeNamespace":
+                                        return None if empty else ns_map[ns]
+                                    if t == "currentNodeName":
+                                        return None if empty else ("annotation-xml" if annot else "x")
+                                    if t == "self.isMathMLTextIntegrationPoint(currentNode)":
+                                        return mtip
+                                    if t == "self.isHTMLIntegrationPoint(currentNode)":
+                                        return hip
+                                    return NotImplemented
+                                env = dict(env0)
+                                tok = {"type": tt[kind], "name": name}
+                                env.update({"type": tt[kind], "token": tok, "new_token": tok})
+                                saved = ce.hook
+                                ce.hook = hook
+                                try:
+                                    got = interp.eval_guard(cond.test, env)
+                                finally:
+                                    ce.hook = saved
+                                exp = (empty or ns == "html"
+                                       or (mtip and ((kind == "StartTag" and name not in ("mglyph", "malignmark")) or kind in ("Characters", "SpaceCharacters")))
+                                       or (annot and kind == "StartTag" and name == "svg")
+                                       or (hip and kind in ("StartTag", "Characters", "SpaceCharacters")))
+                                key = "dispatch[empty=%d ns=%s mtip=%d hip=%d annot=%d %s %s]" % (
+                                    empty, ns, mtip, hip, annot, kind, "-" if name == FRESH else name)
+                                r.check("C01.9", got == exp, key, "%s:%d" % (PARSER_REL, cond.lineno),
+                                        "%s: html5lib uses %s; the standard's dispatcher uses %s" % (
+                                            key, "the insertion mode" if got else "foreign-content rules",
+                                            "the insertion mode" if exp else "foreign-content rules"), {"case": key})
+    # the integration-point predicates
+    g = ctx.repo.func(PARSER_REL, "HTMLParser.isHTMLIntegrationPoint")
+    p = g.params()[1]
+    gi = MiniInterp(ce, g.module)
+    hips = ce.const("constants.py", "htmlIntegrationPointElements")
+    for nsk, name in (("mathml", "annotation-xml"), ("svg", "foreignObject"), ("svg", "desc"), ("svg", "title"), ("svg", "g"),
+                      ("mathml", "mi"), ("html", "div")):
+        for enc in (None, "text/html", "TEXT/HTML", "application/xhtml+xml", "text/plain"):
+            if enc is not None and name != "annotation-xml":
+                continue
+            attrs = {} if enc is None else {"encoding": enc}
+
+            def hook(node, local, nsk=nsk, name=name, attrs=attrs):
+                t = norm(node)
+                if t == "%s.name" % p:
+                    return name
+                if t == "%s.namespace" % p:
+                    return ns_map[nsk]
+                if t == "%s.attributes" % p:
+                    return attrs
+                return NotImplemented
+            saved = ce.hook
+            ce.hook = hook
+            try:
+                res = gi.run(g.node.body, {"self": Opaque("self")})
+            finally:
+                ce.hook = saved
+            got = bool(res.value)
+            if nsk == "mathml" and name == "annotation-xml":
+                exp = enc is not None and enc.lower() in ("text/html", "application/xhtml+xml")
+            else:
+                exp = (nsk, name) in (("svg", "foreignObject"), ("svg", "desc"), ("svg", "title"))
+            r.check("C01.9", got == exp, "html-integration-point[%s %s enc=%s]" % (nsk, name, enc), g.where,
+                    "isHTMLIntegrationPoint(%s %s, encoding=%r) is %s; the standard says %s" % (nsk, name, enc, got, exp))
+    h = ctx.repo.func(PARSER_REL, "HTMLParser.isMathMLTextIntegrationPoint")
+    r.check("C01.9", [norm(x) for x in h.node.body if not isinstance(x, ast.Expr)] ==
+            ["return (%s.namespace, %s.name) in mathmlTextIntegrationPointElements" % (h.params()[1], h.params()[1])],
+            "mathml-text-integration-point", h.where, "isMathMLTextIntegrationPoint no longer tests (namespace, name) membership")
+
+
+# ---------------------------------------------------------------------------- C01.10 quirks mode
+QUIRKS_EXACT = {"-//w3o//dtd w3 html strict 3.0//en//", "-/w3c/dtd html 4.0 transitional/en", "html"}
+QUIRKS_SYSTEM = "http://www.ibm.com/data/dtd/v11/ibmxhtml1-transitional.dtd"
+QUIRKS_IF_NO_SYSTEM = ("-//w3c//dtd html 4.01 frameset//", "-//w3c//dtd html 4.01 transitional//")
+LIMITED_QUIRKS = ("-//w3c//dtd xhtml 1.0 frameset//", "-//w3c//dtd xhtml 1.0 transitional//")
+QUIRKS_PREFIX_SAMPLE = ("-//ietf//dtd html//", "-//w3c//dtd html 3.2//", "-//w3c//dtd html 4.0 transitional//",
+                        "-//w3c//dtd html 4.0 frameset//", "-//netscape comm. corp.//dtd html//", "-//ietf//dtd html 2.0//",
+                        "-//microsoft//dtd internet explorer 3.0 html//", "+//silmaril//dtd html pro v0r11 19970101//",
+                        "-//webtechs//dtd mozilla html//", "-//w3c//dtd w3 html//")
+
+
+def quirks(ctx):
+    """The quirks / limited-quirks decision of the initial insertion mode, decided over representative DOCTYPE tokens."""
+    r = ctx.r
+    ce = ctx.ce
+    f = ctx.repo.func(PARSER_REL, "InitialPhase.processDoctype")
+    # the long prefix tuple of the code is the domain for prefixes; the standard's structure is the oracle
+    tuples = []
+    for n in ast.walk(f.node):
+        if isinstance(n, ast.Call) and isinstance(n.func, ast.Attribute) and n.func.attr == "startswith" and n.args:
+            v = ce.try_eval(n.args[0], f.module)
+            if isinstance(v, tuple):
+                tuples.append(v)
+    if not tuples:
+        raise AnalysisError("processDoctype: prefix tables not found")
+    big = max(tuples, key=len)
+    r.check("C01.10", len(big) == 55 and all(p in big for p in QUIRKS_PREFIX_SAMPLE) and all(p == p.lower() and p.endswith("//") for p in big),
+            "quirks-prefix-table", f.where, "the quirks prefix table has %d entries / lost well-known entries / is not lower-case" % len(big),
+            detail={"entries": len(big)})
+    pubs = [None, "", "HTML", "html", "-//W3O//DTD W3 HTML Strict 3.0//EN//", "-/W3C/DTD HTML 4.0 Transitional/EN",
+            "-//W3C//DTD HTML 4.01 Frameset//EN", "-//W3C//DTD HTML 4.01 Transitional//EN", "-//W3C//DTD XHTML 1.0 Frameset//EN",
+            "-//W3C//DTD XHTML 1.0 Transitional//EN", "-//W3C//DTD HTML 4.01//EN", "-//W3C//DTD XHTML 1.0 Strict//EN", "x"] + \
+        [p.upper() + "EN" for p in big[:6]] + [big[-1] + "x", big[20]]
+    syss = [None, "", "about:legacy-compat", QUIRKS_SYSTEM, QUIRKS_SYSTEM.upper(), "http://www.w3.org/TR/html4/loose.dtd"]
+    interp = MiniInterp(ce, f.module)
+    for name in ("html", "other"):
+        for correct in (True, False):
+            for pub in pubs:
+                for sysid in syss:
+                    tok = {"name": name, "publicId": pub, "systemId": sysid, "correct": correct}
+                    res = interp.run(f.node.body, {f.params()[1]: tok, "self": Opaque("self")})
+                    modes = [norm(e.node.value) for e in res.effects if isinstance(e.node, ast.Assign) and norm(e.node.targets[0]) == "self.parser.compatMode"]
+                    got = modes[-1].strip("'") if modes else "no quirks"
+                    lp = (pub or "").lower()
+                    ls = (sysid or "").lower()
+                    if (not correct or name != "html" or lp in QUIRKS_EXACT or (sysid is not None and ls == QUIRKS_SYSTEM)
+                            or lp.startswith(tuple(big)) or (sysid is None and lp.startswith(QUIRKS_IF_NO_SYSTEM))):
+                        exp = "quirks"
+                    elif lp.startswith(LIMITED_QUIRKS) or (sysid is not None and lp.startswith(QUIRKS_IF_NO_SYSTEM)):
+                        exp = "limited quirks"
+                    else:
+                        exp = "no quirks"
+                    key = "quirks[name=%s correct=%s pub=%r sys=%r]" % (name, correct, (pub or "")[:34] if pub is not None else None,
+                                                                          (sysid or "")[:24] if sysid is not None else None)
+                    r.check("C01.10", got == exp, key, f.where, "%s -> %s; the standard says %s" % (key, got, exp), {"case": key})
+
+
 # ---------------------------------------------------------------------------- C01.4 / C02.7
 STANDARD_CONTENT_MODEL = {
     "title": {("rcdata", "always")}, "textarea": {("rcdata", "always")},
@@ -786,6 +955,8 @@ def run(ctx):
     r.rule("C01.6", "the start tags that clear the frameset-ok flag in body are the standard's list; text clears it, white space does not", floor=20)
     r.rule("C01.7", "active formatting elements are reconstructed for the standard's start tags, and freshly before each insertion", floor=60)
     r.rule("C01.8", "first-match searches over the stack / formatting list run in the standard's direction", floor=12)
+    r.rule("C01.9", "tree construction dispatcher (insertion mode vs foreign content) and integration-point predicates equal the standard's", floor=120)
+    r.rule("C01.10", "quirks / limited-quirks decision equals the standard's for representative DOCTYPE tokens", floor=500)
     r.rule("C01.5", "evaluated element tables equal the transcribed WHATWG sets (entries marked either-way excepted)", floor=300)
     ambient(ctx)
     dispatch(ctx)
@@ -795,6 +966,8 @@ def run(ctx):
     frameset_ok(ctx)
     reconstruct(ctx)
     search_direction(ctx)
+    dispatcher(ctx)
+    quirks(ctx)
     standard_tables(ctx)
 
 
@@ -847,6 +1020,13 @@ def mutants():
         T("hr-reconstructs", "html5parser.py", "    def startTagHr(self, token):\n        if self.tree.elementInScope(\"p\", variant=\"button\"):\n            self.endTagP(impliedTagToken(\"p\"))\n",
           "    def startTagHr(self, token):\n        if self.tree.elementInScope(\"p\", variant=\"button\"):\n            self.endTagP(impliedTagToken(\"p\"))\n        self.tree.reconstructActiveFormattingElements()\n", "C01.7"),
         T("scope-forward", "treebuilders/base.py", "        for node in reversed(self.openElements):\n            if exactNode and node == target:", "        for node in self.openElements:\n            if exactNode and node == target:", "C01.8"),
+        T("dispatch-malignmark", "html5parser.py", 'token["name"] not in frozenset(["mglyph", "malignmark"])) or', 'token["name"] not in frozenset(["mglyph"])) or', "C01.9"),
+        T("dispatch-hip-endtag", "html5parser.py", "                         type in (StartTagToken, CharactersToken, SpaceCharactersToken))):", "                         type in (StartTagToken, EndTagToken, CharactersToken, SpaceCharactersToken))):", "C01.9"),
+        T("dispatch-annotation-svg", "html5parser.py", "                         token[\"name\"] == \"svg\") or", "                         token[\"name\"] == \"math\") or", "C01.9"),
+        T("hip-case-sensitive", "html5parser.py", "                    element.attributes[\"encoding\"].translate(\n                        asciiUpper2Lower) in", "                    element.attributes[\"encoding\"] in", "C01.9"),
+        T("quirks-system-missing", "html5parser.py", '                     "-//w3c//dtd html 4.01 transitional//")) and\n                systemId is None or', '                     "-//w3c//dtd html 4.01 transitional//")) and\n                systemId is not None or', "C01.10"),
+        T("quirks-case-sensitive", "html5parser.py", "        if publicId != \"\":\n            publicId = publicId.translate(asciiUpper2Lower)\n", "", "C01.10"),
+        T("quirks-prefix-typo", "html5parser.py", '"-//w3c//dtd html 3.2 final//",', '"-//w3c//dtd html 3.2 finale//",', "C01.10"),
         T("scope-drop-td", "constants.py", '    (namespaces["html"], "td"),\n    (namespaces["html"], "th"),\n    (namespaces["mathml"], "mi"),',
           '    (namespaces["html"], "th"),\n    (namespaces["mathml"], "mi"),', "C01.5"),
         T("svg-attr-case", "constants.py", '"viewbox": "viewBox"', '"viewbox": "viewbox"', "C01.5"),
